@@ -14,6 +14,7 @@ for patch in "$here"/selftest/mutants/*.patch; do
   case "$name" in *"${1:-}"*) ;; *) continue;; esac
   meta="$here/selftest/mutants/$name.json"
   prop=$(python3 -c "import json;print(json.load(open('$meta'))['property'])")
+  if [ -n "${SELFTEST_PROP:-}" ] && [ "$prop" != "$SELFTEST_PROP" ]; then continue; fi
   git -C "$tmp/wt" checkout -q -- . ; git -C "$tmp/wt" clean -fdq
   if ! git -C "$tmp/wt" apply "$patch" 2>/dev/null; then echo "SELFTEST $name: patch does not apply (stale)"; fail=1; continue; fi
   out=$(GOVC_REPO="$tmp/wt" GOVC_TMP="$tmp/work" "$here/bin/govc" check -prop "$prop" -no-evidence -no-replay -verif "$here" 2>&1)
@@ -31,6 +32,7 @@ for d in "$here"/seeded/*/; do
   case "$name" in *"${1:-}"*) ;; *) continue;; esac
   [ -f "$d/patch.diff" ] || continue
   prop=$(python3 -c "import json;print(json.load(open('$d/meta.json'))['property'])")
+  if [ -n "${SELFTEST_PROP:-}" ] && [ "$prop" != "$SELFTEST_PROP" ]; then continue; fi
   git -C "$tmp/wt" checkout -q -- . ; git -C "$tmp/wt" clean -fdq
   if ! git -C "$tmp/wt" apply "$d/patch.diff" 2>/dev/null; then echo "SELFTEST seed $name: patch does not apply (stale)"; fail=1; continue; fi
   out=$(GOVC_REPO="$tmp/wt" GOVC_TMP="$tmp/work" "$here/bin/govc" check -prop "$prop" -no-evidence -no-replay -verif "$here" 2>&1)
